@@ -1,6 +1,7 @@
 package main
 
 import (
+	"math"
 	"strings"
 
 	"verif/harness/vh"
@@ -274,6 +275,8 @@ func (sc *scope) tuples(shape string) []tuple {
 		return short(cross(sc.slicesArg(false, 0), pairsZ(preds), true), 3)
 	case "s,n":
 		return short(cross(sc.slicesArg(false, 0), zs(-1, 0, 1, 2, 3, 4, 7), true), 3)
+	case "s,nb": // a batch size: also the "no limit" sentinels around MaxInt
+		return short(cross(sc.slicesArg(false, 0), zs(-1, 0, 1, 2, 3, 4, 7, math.MaxInt64, math.MaxInt64-1, math.MaxInt64-2, math.MinInt64, 1<<62), true), 3)
 	case "s,v":
 		return short(cross(sc.slicesArg(false, 0), zs(0, 1, 2, 3), true), 3)
 	case "s,v,k":
@@ -326,6 +329,8 @@ func (sc *scope) tuples(shape string) []tuple {
 		return maps()
 	case "m,n":
 		return cross(maps(), zs(-1, 0, 1, 2, 3, 5), true)
+	case "m,nb":
+		return cross(maps(), zs(-1, 0, 1, 2, 3, 5, math.MaxInt64, math.MaxInt64-1, math.MinInt64), true)
 	case "m,v":
 		return cross(maps(), zs(0, 1, 2, 3), true)
 	case "m,v,k":
@@ -517,6 +522,12 @@ func (sc *scope) randomArgs(shape string, r *vh.RNG) []Val {
 			a = append(a, VZ(c), VZ(x))
 		case "n":
 			a = append(a, VZ(int64(r.Range(-2, 9))))
+		case "nb":
+			if r.Chance(1, 5) {
+				a = append(a, VZ([]int64{math.MaxInt64, math.MaxInt64 - 1, math.MaxInt64 - int64(r.Intn(12)), math.MinInt64, 1 << 62, 1 << 31}[r.Intn(6)]))
+			} else {
+				a = append(a, VZ(int64(r.Range(-2, 9))))
+			}
 		case "v", "x", "z":
 			if s := firstS(); len(s) > 0 && r.Bool() {
 				a = append(a, VZ(s[r.Intn(len(s))]))
